@@ -276,14 +276,13 @@ Proof.
     rewrite (holder_ext3 c s s' HB HC HB' HC'); [reflexivity|]. apply holders_keep_nonkill with (l := LHbWrite i); auto; discriminate.
   - (* SIGKILL *)
     pose proof (orphaned_keeps c s _ s' HB Hs ltac:(discriminate) ltac:(discriminate) ltac:(discriminate)) as Hor.
-    cbn [step] in Hs. injection Hs as <-.
+    assert (Hcs : cs s' = kill_cs p (cproc s) (cs s)) by (cbn [step] in Hs; injection Hs as <-; reflexivity).
     destruct (holder s) as [t|] eqn:Eh.
     + apply (holder_some3 c s t HB HC) in Eh. destruct Eh as [i Hi].
       destruct (Nat.eqb_spec (cproc s t) p) as [Ep|Ep].
       * (* the holder's process dies *)
-        set (s' := State (now s) (file s) (content s) (nexti s) (kill_cs p (cproc s) (cs s)) (cproc s) (tids s) (kill_hb p (hb s)) (lastcreate s) (mtime s)) in *.
         assert (Hn' : holder s' = None).
-        { apply (holder_none3 c s' HB' HC'). intros t' j Hj. cbn [cs s'] in Hj.
+        { apply (holder_none3 c s' HB' HC'). intros t' j Hj. rewrite Hcs in Hj.
           destruct (kill_cs_cases p (cproc s) (cs s) t') as [E|[E _]]; rewrite E in Hj; [|discriminate].
           assert (t' = t) by (apply (C_one s HC t' t j i); right; assumption). subst t'.
           rewrite kill_cs_dead in E by (auto; congruence). congruence. }
@@ -294,11 +293,11 @@ Proof.
         cbn. rewrite Nat.eqb_refl. reflexivity.
       * (* somebody else's process dies *)
         assert (Hh : holder s = Some t) by (apply (holder_some3 c s t HB HC); eauto).
-        assert (Hh' : holder (State (now s) (file s) (content s) (nexti s) (kill_cs p (cproc s) (cs s)) (cproc s) (tids s) (kill_hb p (hb s)) (lastcreate s) (mtime s)) = Some t).
-        { apply (holder_some3 c _ t HB' HC'). exists i. cbn [cs]. rewrite kill_cs_other by assumption. exact Hi. }
+        assert (Hh' : holder s' = Some t).
+        { apply (holder_some3 c s' t HB' HC'). exists i. rewrite Hcs. rewrite kill_cs_other by assumption. exact Hi. }
         unfold abs3. rewrite Hh, Hh'. reflexivity.
-    + assert (Hn' : holder (State (now s) (file s) (content s) (nexti s) (kill_cs p (cproc s) (cs s)) (cproc s) (tids s) (kill_hb p (hb s)) (lastcreate s) (mtime s)) = None).
-      { apply (holder_none3 c _ HB' HC'). intros t' j Hj. cbn [cs] in Hj.
+    + assert (Hn' : holder s' = None).
+      { apply (holder_none3 c s' HB' HC'). intros t' j Hj. rewrite Hcs in Hj.
         destruct (kill_cs_cases p (cproc s) (cs s) t') as [E|[E _]]; rewrite E in Hj; [|discriminate].
         exact (proj1 (holder_none3 c s HB HC) Eh t' j Hj). }
       unfold abs3. rewrite Hn', Hor, Eh. reflexivity.
